@@ -1211,8 +1211,57 @@ fn fixed_and_witness_lines(out: &mut Out) {
 	out.op("writer-grow", &[Sexp::nat(65525), Sexp::nat(130)]);
 }
 
+/// The two passes of `read_code` must agree on where every instruction ends: the second pass's `Vec::with_capacity(npairs)`
+/// of a switch is only safe because the first pass walked the same switch and failed on its missing entries.  Every opcode
+/// (and every `wide` form) with operand bytes that would themselves decode as instructions, followed by a switch that
+/// announces 2^24 entries it does not have: the largest allocation must stay small (`alloc_bound_code`,
+/// `passes_visit_same_instructions`), whatever the outcome.
+fn gen_pass_desync(out: &mut Out) {
+	let fillers: [&[u8]; 4] = [&[0x00, 0x11, 0x00, 0x00, 0x00], &[0xab, 0x00, 0x01, 0x00, 0x11], &[0x00, 0x00, 0xaa, 0x10, 0x00], &[0xc4, 0x84, 0x00, 0x00, 0x11]];
+	let mut emit = |prefix: Vec<u8>, what: &str, out: &mut Out| {
+		for switch in [0xabu8, 0xaa] {
+			let mut code = prefix.clone();
+			code.push(switch);
+			while code.len() % 4 != 0 { code.push(0); }
+			code.extend(0i32.to_be_bytes());
+			if switch == 0xab { code.extend(0x0100_0000i32.to_be_bytes()); } else { code.extend(0i32.to_be_bytes()); code.extend(0x00ff_ffffi32.to_be_bytes()); }
+			out.op("oracle-alloc", &[Sexp::tag("code"), Sexp::bytes(&code_body(&code))]);
+			out.stats.hit(what);
+		}
+	};
+	for opcode in 0u16..=255 {
+		for f in fillers {
+			// the operand bytes of the longest form are taken from the filler; shorter forms simply leave some of them as
+			// following instructions
+			let mut p = vec![opcode as u8];
+			p.extend_from_slice(f);
+			emit(p, "desync:opcode", out);
+		}
+	}
+	// every operand byte pattern over {nop, bipush (eats 1), sipush (eats 2)} behind the instructions that have operands: if one
+	// pass takes fewer operand bytes than the other, some pattern makes it swallow the switch opcode
+	let mut patterns: Vec<[u8; 5]> = Vec::new();
+	for a in [0x00u8, 0x10, 0x11] { for b in [0x00u8, 0x10, 0x11] { for c in [0x00u8, 0x10, 0x11] { for d in [0x00u8, 0x10, 0x11] { patterns.push([a, b, c, d, 0x00]); } } } }
+	let with_operands: Vec<u8> = (0u16..=255).map(|x| x as u8).filter(|&op| matches!(op, 0x10..=0x19 | 0x36..=0x3a | 0x84 | 0x99..=0xa9 | 0xb2..=0xbd | 0xc0 | 0xc1 | 0xc5..=0xc9)).collect();
+	for &op in &with_operands {
+		for f in &patterns {
+			let mut p = vec![op];
+			p.extend_from_slice(f);
+			emit(p, "desync:operand-patterns", out);
+		}
+	}
+	for wide_op in [0x15u8, 0x16, 0x17, 0x18, 0x19, 0x36, 0x37, 0x38, 0x39, 0x3a, 0x84, 0xa9, 0x00, 0xc4] {
+		for f in &patterns {
+			let mut p = vec![0xc4, wide_op];
+			p.extend_from_slice(f);
+			emit(p, "desync:wide", out);
+		}
+	}
+}
+
 fn gen(r: &mut Rng, tier: Tier, out: &mut Out) {
 	fixed_and_witness_lines(out);
+	gen_pass_desync(out);
 	gen_wrapped(&mut r.fork(), tier, out);
 	gen_text(&mut r.fork(), tier, out);
 	gen_class_stream(&mut r.fork(), tier, out);
